@@ -228,7 +228,7 @@ def run_c16(v):
     trace = lib.outpath(v.prop, "robust.ndjson")
     timeout_ms = 10000 if quick else 20000
     s = lib.svh(binary, ["robust", "--seed", v.seed, "--out", trace, "--cases", cases,
-                         "--random", 1500 if quick else 20000, "--mutants", 3000 if quick else 40000,
+                         "--random", 1500 if quick else 60000, "--mutants", 3000 if quick else 120000,
                          "--timeout-ms", timeout_ms],
                 env=WORK_ENV, timeout=7200)
     msgs, dt, _ = lib.tlc_trace("Trace_Requests.tla", trace, timeout=6000, xmx="8g")
